@@ -172,11 +172,21 @@ func ruleTLSPools(c *Ctx) {
 				c.R.Violate("R-TLS/pools", p.Pos(pos), f.Name, construct, "the trust pool is not exactly {the peer's handshake certificate}: "+why, nil)
 			}
 		}
+		var feasible map[*Node]bool
 		walkNoLit(f.Body, func(x ast.Node) bool {
 			switch s := x.(type) {
 			case *ast.AssignStmt:
 				for i, l := range s.Lhs {
 					if se, ok := ast.Unparen(l).(*ast.SelectorExpr); ok && isTLSConfigType(info.TypeOf(se.X)) && (se.Sel.Name == "RootCAs" || se.Sel.Name == "ClientCAs") && i < len(s.Rhs) {
+						// a store in code the path domain proves dead (the `peers != nil`
+						// branch of a shared helper inlined with a nil argument) is no store
+						if feasible == nil {
+							fg := p.Graph(f)
+							feasible = p.FeasibleReach(f, []*Node{fg.Entry}, nil, nil)
+						}
+						if sn := p.Graph(f).NodeOf(s); sn != nil && !feasible[sn] {
+							continue
+						}
 						check(s, se.Sel.Name, s.Rhs[i])
 					}
 				}
